@@ -153,7 +153,7 @@ def real_one(case):
                 raise ssl.SSLError('simulated TLS failure')
             return FakeSock(tls=True)
 
-    saved = {k: os.environ.get(k) for k in ('HTTP_PROXY', 'HTTPS_PROXY')}
+    saved = {k: os.environ.get(k) for k in ('HTTP_PROXY', 'HTTPS_PROXY', 'http_proxy', 'https_proxy')}
     try:
         if case.get('via_env'):
             for k, ent in (('HTTP_PROXY', 'http'), ('HTTPS_PROXY', 'https')):
@@ -163,6 +163,11 @@ def real_one(case):
             proxies = None
         else:
             proxies = dict(case['proxies'])
+            # an explicit mapping (also an empty one) switches environment detection off: whatever the environment says must be ignored
+            os.environ['HTTP_PROXY'] = 'http://env-proxy.example:9999'
+            os.environ['HTTPS_PROXY'] = 'http://env-proxy.example:9998'
+            os.environ['http_proxy'] = 'http://env-proxy.example:9997'
+            os.environ['https_proxy'] = 'http://env-proxy.example:9996'
         try:
             ws = WebSocket(case['url'], proxies=proxies)
         except ValueError:
